@@ -158,8 +158,25 @@ def run_case(case, ctx, st):
                               expected="unchanged")
         return out, exc
 
+    # a share of the gradient estimators is wrapped by add_mlcl_constraint (the decoration lives on the instance)
+    decorate = name != "Kauri" and n >= 6 and rng.random() < 0.3
+    perm = [int(x) for x in rng.permutation(n)]
+    mlcl = ([(perm[0], perm[1])], [(perm[2], perm[3])], float(rng.uniform(0.2, 2.0)))
+    if decorate and name not in gen.NONPARAMETRIC and rng.random() < 0.7:
+        params["batch_size"] = int(rng.integers(2, max(3, n - 1)))       # several shuffled batches per epoch
+    ctx.case = dict(ctx.case, decorated=decorate, params=params)
+
+    def build():
+        e = gen.build_estimator(name, params)
+        if decorate:
+            from gemclus import add_mlcl_constraint
+            e = add_mlcl_constraint(e, mlcl[0], mlcl[1], mlcl[2])
+        return e
+
+    if decorate:
+        ctx.count("decorated_histories")
     # ---- reference: a fresh object ---------------------------------------------------------------------------
-    fresh = gen.build_estimator(name, params)
+    fresh = build()
     try:
         with warnings.catch_warnings():
             warnings.simplefilter("ignore")
@@ -169,7 +186,7 @@ def run_case(case, ctx, st):
         ctx.count("reference_raised:" + type(e).__name__)
         return
     # ---- the object with a history ---------------------------------------------------------------------------
-    est = gen.build_estimator(name, params)
+    est = build()
     ops = []
     fitted = False
     L = int(rng.integers(0, 7))
@@ -295,6 +312,10 @@ def run_case(case, ctx, st):
             ctx.violation("reproducible", f"second-path-differs/{name}", observed={"ops": ops, "params": params,
                                                                                  "alphas_first": ref_ret[3][:3], "alphas_second": None if r2 is None else r2[3][:3]},
                           expected="bit-identical")
+    if decorate:
+        # consume the global NumPy generator between fits: nothing may depend on it when random_state is an integer
+        np.random.seed(int(rng.integers(0, 2 ** 31 - 1)))
+        np.random.random(int(rng.integers(1, 50)))
     c = clone(est)
     ctx.count("clone_roundtrips")
     pa, pb = est.get_params(), c.get_params()
@@ -302,7 +323,7 @@ def run_case(case, ctx, st):
         bad = [k for k in pa if k not in pb or gem_value(pa[k]) != gem_value(pb[k])]
         ctx.violation("round-trip", f"clone-does-not-round-trip/{name}", observed={"params": bad}, expected="equal hyperparameters")
     else:
-        want = {k: gem_value(v) for k, v in gen.build_estimator(name, params).get_params().items()}
+        want = {k: gem_value(v) for k, v in gen.build_estimator(name, params).get_params().items()}   # decoration adds no hyperparameter
         have = {k: gem_value(v) for k, v in pa.items()}
         diff = [k for k in want if want[k] != have.get(k)]
         if diff:
@@ -312,7 +333,7 @@ def run_case(case, ctx, st):
         try:
             with warnings.catch_warnings():
                 warnings.simplefilter("ignore")
-                if not final_path:
+                if not final_path and not decorate:
                     c.fit(Xref, yref)
                     if not same_state(state_of(c, name), ref_state):
                         ctx.violation("reproducible", f"clone-fit-differs/{name}", observed={"ops": ops}, expected="bit-identical")
